@@ -30,6 +30,28 @@ def auditJson (tbl : EnvTable) (toks : List TagName) : Json :=
 
 /-- `["c21", env, [source tag names]]` → tokens the lexer yields, strict/restricted parse verdicts on
 those tokens, and the audit of those tokens.  `["c21tok", env, [token names]]` skips the lexer model. -/
+def parseMap (j : Json) : Option (List (TagName × List TagName)) := do
+  let rows ← asArr? j
+  mapM? (fun r => do
+    match (← asArr? r) with
+    | [b, inns] => pure (toName (← asStr? b), (← (asArr? inns).bind (mapM? asStr?)).map toName)
+    | _ => none) rows
+
+/-- `["c21inner", env, [[block, [inner…]]…], [source tag names]]`: the same with a caller-supplied inner-tag map -/
+def handleInner (args : List Json) : Json :=
+  match args with
+  | [e, m, ts] =>
+    match (asStr? e).bind envOf, parseMap m, (asArr? ts).bind (mapM? asStr?) with
+    | some tbl0, some mp, some ss =>
+      let tbl := withInner tbl0 mp
+      let toks := lexTags (ss.map toName)
+      Json.mkObj [("tokens", names toks),
+                  ("parse", Json.bool (strictParses tbl toks)),
+                  ("noskip", Json.bool (parses tbl ⟨true, true, false⟩ toks)),
+                  ("audit", auditJson tbl toks)]
+    | _, _, _ => jerr "bad-args"
+  | _ => jerr "bad-args"
+
 def handleWith (lexed : Bool) (args : List Json) : Json :=
   match args with
   | [e, ts] =>
@@ -49,5 +71,5 @@ end Driver.C21
 
 namespace Driver.C21
 def commands : List (String × (List Lean.Json → Lean.Json)) :=
-  [("c21", handleWith true), ("c21tok", handleWith false)]
+  [("c21", handleWith true), ("c21tok", handleWith false), ("c21inner", handleInner)]
 end Driver.C21
